@@ -95,6 +95,20 @@ def run(sid, props, tier="quick"):
             rc, out = sh(f"./check {p} {tier}", cwd=VERIF, timeout=7200)
             last = [l for l in out.splitlines() if l.startswith("VIOLATION") or l.startswith("[" + p)]
             results[p] = (rc, last)
+            how = None
+            for l in last:
+                if l.startswith("VIOLATION") and "replay=" in l:
+                    try:
+                        rep = json.load(open(l.split("replay=")[1].split()[0]))
+                        how = {k: rep.get(k) for k in ("kind", "suite", "clause") if rep.get(k)}
+                        if rep.get("broken_obligations"):
+                            how["broken_obligations"] = [b[0] for b in rep["broken_obligations"]][:6]
+                    except Exception:  # noqa: BLE001
+                        pass
+            if p == meta["property"] and tier == "quick":
+                meta["detected_by"] = ({"check": f"./check {p} quick", "exit": rc, "how": how} if rc != 0
+                                       else {"check": f"./check {p} quick", "exit": 0, "how": "MISSED"})
+                json.dump(meta, open(os.path.join(d, "meta.json"), "w"), indent=1)
     finally:
         sh("git -C /repo reset -q && git -C /repo checkout -q -- .")
         for ev, txt in saved.items():
